@@ -54,6 +54,8 @@ class Ids:
             return 'n%03d' % i if i >= 0 else 'm%03d' % (-i)
         if f == 'sym':        # strings that also occur as markers inside the library ('+', '-', 't', '', 'None')
             return SYM[i] if 0 <= i < len(SYM) else ('s%d' % i if i >= 0 else 'S%d' % (-i))
+        if f == 'sp':         # text with blanks (place names, labels): '_'-free, so inside C12's quantifier too
+            return 'New y %03d' % i if i >= 0 else 'Old y %03d' % (-i)
         if f == 'us':         # text with the character the path algorithms use as a separator in DAG node names
             return 'a_n_%03d' % i if i >= 0 else 'a_m_%03d' % (-i)
         if f == 'ustr':       # non-ASCII text (encodable in latin-1 / cp1252 as well as utf-8)
@@ -74,6 +76,10 @@ class Ids:
             if x in SYM:
                 return SYM.index(x)
             return int(x[1:]) if x[0] == 's' else -int(x[1:])
+        if f == 'sp':
+            if x[:6] not in ('New y ', 'Old y '):
+                raise ValueError('node id %r is not one of the ids that were used' % (x,))
+            return int(x[6:]) if x[0] == 'N' else -int(x[6:])
         if f == 'us':
             if x[:4] not in ('a_n_', 'a_m_'):
                 raise ValueError('node id %r is not one of the ids that were used' % (x,))
